@@ -408,6 +408,9 @@ class Inventory:
         while isinstance(ua, tuple) and ua and ua[0] == "cast":
             ua = ua[1]
         if op == "Add" and cc is not None and 0 <= cc <= 2:
+            ectx = self._closure_enum_ctx(b)
+            if ectx is not None and mir.strip(ua) == ectx[0]:
+                return "D10:enumerate-index-plus-small-constant-cannot-overflow"
             # i + small where i is bounded by a length / a range element / a usize counter below a length
             if isinstance(ua, tuple) and ua[0] in ("elem", "len"):
                 return "D5:index-or-length-plus-small-constant-cannot-overflow"
@@ -431,7 +434,54 @@ class Inventory:
                     return "D5:signed-counter>=0-minus-1-cannot-overflow"
         return None
 
+    def _closure_enum_ctx(self, b):
+        """for a closure body that is the argument of a scan/adaptor over  X.iter().enumerate()  with X captured by
+        the closure: -> (index term, vector term) in the CLOSURE's vocabulary (index < len(vector)), else None"""
+        memo = self.__dict__.setdefault("_enum_ctx", {})
+        if b.path in memo:
+            return memo[b.path]
+        memo[b.path] = None
+        if "::{closure" not in b.path:
+            return None
+        parent = b.path.rsplit("::{closure", 1)[0]
+        if parent not in self.ctx.F.bodies:
+            return None
+        from . import tables
+        pb = self.ctx.body(parent)
+        found = None
+        try:
+            segs = [mir.Walker(pb, max_paths=3000).walk(0)] + [mir.Walker(pb, max_paths=3000).walk(h, start_is_header=True, stop_after_loop=True) for h in sorted(pb.loops())]
+        except mir.TooManyPaths:
+            return None
+        for paths in segs:
+            for p in paths:
+                for ev in p.events:
+                    if ev.kind != "call" or len(ev.b) != 2:
+                        continue
+                    clos = ev.b[1]
+                    if not (isinstance(clos, tuple) and clos and clos[0] == "closure" and clos[1] == b.path):
+                        continue
+                    pl = tables.pipeline(self.ctx.body, ev.b[0])
+                    if pl["problems"] or not pl["enum"] or pl["elem"] != T("tuple", (T("enumidx", pl["base"]), T("elem", pl["base"], None))):
+                        continue
+                    vec = mir.strip(pl["base"][1])
+                    um = mir.closure_upvar_map(b, clos)
+                    inside = [k for k, v in um.items() if mir.strip(v) == vec]
+                    if inside:
+                        found = (T("field", T("param", 2, b.dbg.get(2, "")), "0"), set(inside))
+        memo[b.path] = found
+        return found
+
     def _discharge_call(self, b, path, i, e, kind, guards):
+        # D10: inside `X.iter().enumerate().<adaptor>(|(i, x)| ..)`:  X[i+1..] is in range (i < len(X))
+        if kind == "index" and len(e.b) == 2:
+            ectx = self._closure_enum_ctx(b)
+            if ectx is not None:
+                idx, vecs = ectx
+                v, rng = mir.strip(e.b[0]), e.b[1]
+                if v in {mir.strip(x) for x in vecs} and isinstance(rng, tuple) and rng[0] == "agg" and rng[1] == "std::ops::RangeFrom" \
+                        and mir.strip(rng[3][0]) in (T("binop", "Add", idx, T("const", T("int", 1, "usize"))), idx):
+                    return "D10:slice-from-(enumerate-index+1)-of-the-enumerated-vector"
         if kind == "unwrap" and e.b:
             arg = e.b[0]
             # D1: map.get("K").unwrap() under has_exactly_keys / has_at_least_keys(map, [.. "K" ..])
